@@ -98,6 +98,59 @@ def h_validate():
                             "every exit-status variant, both diff verdicts")
 
 
+def subprocess_variants():
+    """variant order of subprocess::ExitStatus, read from the crate source named in Cargo.lock"""
+    import os
+    import re
+    lock = open(os.path.join(e2.REPO, "Cargo.lock")).read()
+    ver = re.search(r'name = "subprocess"\nversion = "([^"]+)"', lock).group(1)
+    base = os.path.expanduser("~/.cargo/registry/src")
+    for d in os.listdir(base):
+        p = os.path.join(base, d, "subprocess-%s" % ver, "src", "os_common.rs")
+        if os.path.exists(p):
+            text = re.sub(r"//[^\n]*", "", open(p).read())
+            body = text[text.index("pub enum ExitStatus"):]
+            body = body[body.index("{") + 1:body.index("}")]
+            return [re.match(r"\s*([A-Za-z]+)", v).group(1) for v in body.split(",") if v.strip()]
+    raise Unsupported("subprocess crate source not found")
+
+
+def h_conversion():
+    """From<subprocess::ExitStatus> for ExitStatus: only a real exit produces Code(..)"""
+    from mir_exec import ENUMS
+    variants = subprocess_variants()
+    ENUMS["subprocess::ExitStatus"] = variants
+
+    def drive(ctx, args):
+        """<output::ExitStatus as From<subprocess::ExitStatus>>::from"""
+        f = find_method(ctx.program, "subprocess_runner.rs", "from")
+        return ctx.call(f, [args[0]])
+
+    def mk(v):
+        def setup(ctx):
+            payload = {"Exited": [ctx.sym_int("c", "u32")], "Signaled": [ctx.sym_int("sig", "u8")], "Other": [ctx.sym_int("o", "i32")]}.get(v, [])
+            ctx.notes["variant"] = v
+            return [Agg("subprocess::ExitStatus", v, payload)]
+        return setup
+
+    def post(ctx, args, kind, value):
+        if kind != "return":
+            return False
+        v = ctx.notes["variant"]
+        if v == "Exited":
+            if value.variant != "Code":
+                return False
+            c = args[0].fields[0]
+            return value.fields[0].z() == c.z()      # u32 → i32 reinterpretation of the same 32 bits
+        if v in ("Signaled", "Undetermined"):
+            return value.variant != "Code"            # no exit code was produced
+        return True
+    inputs = [("status=%s" % v, mk(v)) for v in variants]
+    return e2.Harness("exit_status_conversion", drive, inputs, post, native=None, judge=None,
+                      describe="a process that was killed by a signal or whose status is undetermined never yields ExitStatus::Code; Exited(c) yields Code(c)",
+                      bound="all four subprocess::ExitStatus variants, all payload values")
+
+
 def witness_json(model, r):
     tc, out = r.ctx.notes["args"]
     exp = to_symopt(field_of(tc, "exit_code"))
@@ -154,6 +207,22 @@ def run(pid, tier):
         else:
             rep.mismatches.append("validate_verdict: solver witness did not reproduce natively: %s → %s" % (w, nv))
     e2.record(rep, h, res)
+    hc = h_conversion()
+    resc = e2.run_harness(prog, hc, keep_raw=True)
+    for model, r in resc.raw_witnesses[:4]:
+        v = r.ctx.notes["variant"]
+        # no native stub can fabricate a subprocess::ExitStatus without spawning: replay = a real bash killed by a signal
+        nk, nv = NAT.call("signal_status", [v])
+        if nk == "return" and nv.get("code_produced"):
+            rep.violation("exit-status:%s-becomes-code" % v.lower(),
+                          "a shell killed by signal 9 is converted to %s: a command without exit code looks like a normal exit" % nv,
+                          {"kind": "eval", "fn": "signal_status", "args": [v], "native": [nk, nv], "harness": hc.name})
+        elif v in ("Signaled",):
+            rep.mismatches.append("exit_status_conversion: solver witness for %s did not reproduce natively: %s" % (v, nv))
+        else:
+            rep.violation("exit-status:%s-conversion" % v.lower(), "conversion of subprocess status %s is wrong on the MIR; no native replay is possible for this variant" % v,
+                          {"kind": "mir-only", "variant": v, "harness": hc.name})
+    e2.record(rep, hc, resc)
     # the executor's padding after an Unknown status (whole-function run of StatefulExecutor::execute_all)
     from props import exec_claims
     exec_claims.NAT = NAT
